@@ -52,7 +52,7 @@ def gen_seq(rng):
 
 def run(tier):
     ck = C.Check("C18", tier)
-    failed = ck.proof_part("Gocc.Props.C18", THEOREMS)
+    failed = ck.proofs()
     n = 2000 if tier == "quick" else 200000
     seqs = list(CORPUS) + [gen_seq(ck.rng) for _ in range(n)]
     lines = ["addrange " + " ".join("%d %d" % r for r in s) for s in seqs]
